@@ -194,14 +194,17 @@ class C03(Prop):
         for cs in ([2, 3] if full else [2]):
             key = ctx.rbytes(32)
             aad = rng.choice([b"", b"egk\x20"])
-            pts = [b"", b"a", ctx.rbytes(cs), ctx.rbytes(cs + 1), ctx.rbytes(2 * cs), ctx.rbytes(2 * cs + 1)]
-            files, _ = authentic_chunks(ctx, key, aad, cs, pts)
+            pts = [b"", b"a", ctx.rbytes(cs), ctx.rbytes(cs + 1), ctx.rbytes(2 * cs), ctx.rbytes(2 * cs + 1),
+                   ctx.rbytes(2 * cs + 1), ctx.rbytes(cs + 2)]
+            # the last two are read in short pieces, so that NON-final chunks are shorter than the chunk size
+            rsl = ["-"] * 6 + ["c1,c%d,c%d" % (cs, cs), "c1,c1,c%d" % cs]
+            files, _ = authentic_chunks(ctx, key, aad, cs, pts, rsl)
             mk = lambda data, P, kind, tags: Case("dec_chunks", key=key, aad=aad, cs=cs, data=data,
                                                    oracle=self.expect(P, kind), tags=tags)
             for P, F in zip(pts, files):
                 cases.append(mk(F, P, "must_accept", ["authentic", "trivial"]))
             # bit flips / truncations / extensions on selected files
-            sel = [1, 3, 5] if full else [3]
+            sel = [1, 3, 5, 6, 7] if full else [3, 6]
             for idx in sel:
                 P, F = pts[idx], files[idx]
                 recs = records(F)
@@ -362,7 +365,8 @@ def roundtrip_chunk_cases(ctx, full):
         for n in range(0, (8 if full else 6)):
             P = ctx.rbytes(n)
             for parts in all_partitions(n, cs):
-                ws = rng.choice(["-", "c1,c1,c1,c3", "c3,c5,c1"])
+                ws = rng.choice(["-", ",".join("c%d" % rng.choice([1, 1, 2, 3, 5, 7]) for _ in range(60)),
+                                 ",".join(["c1"] * 200), "c3,c5,c1"])
                 encs.append((P, Case("enc_chunks", key=key, aad=aad, cs=cs, data=P, rs=script_of(parts), ws=ws,
                                      oracle=ok_only("encryption over a conforming source/sink succeeds"),
                                      tags=["enc", "parts=%d" % len(parts)])))
@@ -732,6 +736,19 @@ class C19(Prop):
             sh = ca.result["out"]
             cb.expect_fn = (lambda r, sh=sh: None if r["out"] == sh and r["code"] == 0 else ("DH is symmetric", r["outcome"]))
             out += [ca, cb, Case("xpub", k=a, tags=["xpub"])]
+        # u-coordinates with bit 255 set and non-canonical values (>= p) must be accepted and masked/reduced (RFC 7748 s.5)
+        out.append(Case("x25519", k=bytes.fromhex("4b66e9d4d1b4673c5ad22691957d6af5c11b6421e0ea01d42ca4169e7918ba0d"),
+                        u=bytes.fromhex("e5210f12786811d3f4b7959d0538ae2c31dbe7106fc03c3efc4cd549c715a493"),
+                        oracle=ok_eq(bytes.fromhex("95cbde9476e8907d7aade45cb4b873f88b595a68799fa152e6f8f7647aac7957"), "RFC 7748 5.2 vector 2"),
+                        tags=["rfc-vector", "high-bit"]))
+        for (a, A), (b, B) in zip(pairs[::2], pairs[1::2]):
+            hb = B[:31] + bytes([B[31] | 0x80])
+            ref = Case("x25519", k=a, u=B)
+            vlib.run_impl(ctx.bin, [ref])
+            out.append(Case("x25519", k=a, u=hb, oracle=ok_eq(ref.result["out"], "bit 255 of the u-coordinate is ignored"), tags=["high-bit"]))
+        for tail in ("ee" + "ff" * 30 + "7f", "f0" + "ff" * 30 + "7f", "ff" * 32, "ef" + "ff" * 30 + "ff"):
+            out.append(Case("x25519", k=pairs[0][0], u=bytes.fromhex(tail) if tail != "ee" + "ff" * 30 + "7f" else bytes.fromhex("ef" + "ff" * 30 + "7f"),
+                            oracle=(lambda r: None if r["code"] in (0, 83) else ("a value, never a panic", r["outcome"])), tags=["non-canonical"]))
         for u in self.LOW_ORDER:
             for k in ([pairs[0][0]] if not ctx.thorough() else [p[0] for p in pairs[:3]]):
                 out.append(Case("x25519", k=k, u=bytes.fromhex(u),
